@@ -77,6 +77,9 @@ func init() {
 				t := hist.Target{Pkg: "p", Name: name(l, i), Command: "true"}
 				if l == 0 {
 					t.Inputs = []string{"base.txt"}
+					if i == 0 {
+						t.Command = `test -z "${VFAIL:-}"` // fails in the runs that set VFAIL
+					}
 				} else {
 					for j := 0; j < sh.width; j++ {
 						t.Deps = append(t.Deps, ":"+name(l-1, j))
@@ -131,9 +134,21 @@ func init() {
 			{"changes", "--since=HEAD", "--dependents=transitive", "--target-type=test"},
 			{"--all-platforms", "build", top},
 			{"--all-platforms", "check"},
+			// a failing target below the ladder (keep-going): the failure is propagated to its dependants, with the ladder
+			// selected and with the ladder NOT selected (only the failing target is built)
+			{"VFAIL", "build", "//..."},
+			{"VFAIL", "build", bottom},
 		}
 		for _, args := range cmds {
-			rr := box.Run(grog, hist.RunOpts{Args: args, Env: map[string]string{"VERIF_COUNT_BUDGET": fmt.Sprint(budget)}, Ceiling: 120 * time.Second})
+			env := map[string]string{"VERIF_COUNT_BUDGET": fmt.Sprint(budget)}
+			mustFail := false
+			if args[0] == "VFAIL" {
+				args, mustFail = args[1:], true
+				env["VFAIL"] = "1"
+				// the bottom layer's input changes, so that it is executed (and fails) instead of being restored
+				os.WriteFile(filepath.Join(box.WS(), "p/base.txt"), []byte("base changed again for "+strings.Join(args, " ")), 0o644)
+			}
+			rr := box.Run(grog, hist.RunOpts{Args: args, Env: env, Ceiling: 120 * time.Second})
 			// everything but the labels
 			var nameParts []string
 			for _, a := range args {
@@ -142,6 +157,9 @@ func init() {
 				}
 			}
 			cmdName := strings.Join(nameParts, " ")
+			if mustFail {
+				cmdName += " (bottom target fails)"
+			}
 			replay := map[string]any{"workspace": fmt.Sprintf("%s (V=%d, E=%d), git repository with p/base.txt modified", sh.name, v, e), "command": "grog " + strings.Join(args, " "), "budget_function_entries": budget, "exit": rr.Exit, "output_tail": tail(rr.Output, 600)}
 			switch {
 			case strings.Contains(rr.Output, "vcount: budget exceeded"):
@@ -152,7 +170,9 @@ func init() {
 				c.R.Violate(vc.Violation{Sig: "C19:command-exceeds-polynomial-bound:" + cmdName, Detail: fmt.Sprintf("`grog %s` on %s (V=%d, E=%d): more than 4*(8(V+E)(V+1)+64)=%d entries of graph / selection / analysis / query functions (%s)", strings.Join(args, " "), sh.name, v, e, budget, at), Replay: replay})
 			case rr.TimedOut:
 				c.R.Violate(vc.Violation{Sig: "C19:command-does-not-finish:" + cmdName, Detail: fmt.Sprintf("`grog %s` on %s did not finish within 120 s", strings.Join(args, " "), sh.name), Replay: replay})
-			case rr.Exit != 0:
+			case mustFail && rr.Exit == 0:
+				c.R.Violate(vc.Violation{Sig: "C19:build-succeeds-although-a-target-failed:" + cmdName, Detail: fmt.Sprintf("`grog %s` on %s exited 0 although %s fails", strings.Join(args, " "), sh.name, bottom), Replay: replay})
+			case rr.Exit != 0 && !mustFail:
 				c.R.Violate(vc.Violation{Sig: "C19:command-fails-on-ladder:" + cmdName, Detail: fmt.Sprintf("`grog %s` on %s exited %d: %s", strings.Join(args, " "), sh.name, rr.Exit, tail(rr.Output, 300)), Replay: replay})
 			}
 			c.R.AddCounts(1, 1, 1, 1)
